@@ -33,22 +33,23 @@ AXES_SRC = 'atomman/tools/axes_check.py'
 THEOREMS = [
     'C11.cijkl_table_is_voigt', 'C11.cij9_table_is_voigt', 'C11.minor_symm', 'C11.major_symm',
     'C11.cijkl_roundtrip', "C11.cijkl_roundtrip'", 'C11.cij9_roundtrip', 'C11.sijkl_weights',
-    'C11.sijkl_roundtrip', "C11.sijkl_roundtrip'", 'C11.stiffness_compliance_identity',
-    'C11.transform_is_tensor_rotation', 'C11.transform_id', 'C11.transform_comp', 'C11.transform_inv',
-    'C11.transform_symm', 'C11.energy_invariant', 'C11.voigt_moduli_invariant', 'C11.reuss_moduli_invariant',
-    'C11.hill_moduli_invariant', 'C11.compliance_transforms_as_tensor', 'C11.cij_setter_symm',
-    'C11.setter_roundtrips', 'C11.cijkl_setter_complete', 'C11.transform_preserves_symmetry',
-    'C11.transform_is_rot', 'C11.system_invariant_isotropic', 'C11.system_invariant_cubic',
-    'C11.system_invariant_hexagonal', 'C11.system_invariant_tetragonal', 'C11.system_invariant_rhombohedral',
-    'C11.three_fold_proper', 'C11.system_invariant_orthorhombic', 'C11.system_invariant_monoclinic',
-    'C11.generators_proper', 'C11.invariance_group', 'C11.hexagonal_inputs_agree',
-    'C11.rhombohedral_inputs_agree', 'C11.iso_range', 'C11.iso_pair_C11_C12', 'C11.iso_pair_C11_C44',
-    'C11.iso_pair_C11_K', 'C11.iso_pair_C12_C44', 'C11.iso_pair_C12_K', 'C11.iso_pair_C44_K',
-    'C11.iso_pair_C11_nu', 'C11.iso_pair_C44_nu', 'C11.iso_pair_E_nu', 'C11.iso_pair_nu_K',
-    'C11.iso_pair_C44_E', 'C11.iso_pair_E_K', 'C11.iso_pair_C12_nu', 'C11.iso_pair_C11_E',
-    'C11.iso_pair_C12_E', 'C11.iso_alias', 'C11.normalized_idem_triclinic', 'C11.normalized_idem_cubic',
-    'C11.normalized_idem_hexagonal', 'C11.normalized_idem_tetragonal', 'C11.normalized_idem_rhombohedral',
-    'C11.normalized_idem_orthorhombic', 'C11.normalized_idem_isotropic', 'C11.is_normal_of_normalized',
+    'C11.sijkl_roundtrip', "C11.sijkl_roundtrip'", 'C11.hooke_voigt', 'C11.hooke_inverse_voigt',
+    'C11.stiffness_compliance_identity', 'C11.transform_is_tensor_rotation', 'C11.transform_id',
+    'C11.transform_comp', 'C11.transform_inv', 'C11.transform_symm', 'C11.energy_invariant',
+    'C11.voigt_moduli_invariant', 'C11.reuss_moduli_invariant', 'C11.hill_moduli_invariant',
+    'C11.compliance_transforms_as_tensor', 'C11.cij_setter_symm', 'C11.setter_roundtrips',
+    'C11.cijkl_setter_complete', 'C11.transform_preserves_symmetry', 'C11.transform_is_rot',
+    'C11.system_invariant_isotropic', 'C11.system_invariant_cubic', 'C11.system_invariant_hexagonal',
+    'C11.system_invariant_tetragonal', 'C11.system_invariant_rhombohedral', 'C11.three_fold_proper',
+    'C11.system_invariant_orthorhombic', 'C11.system_invariant_monoclinic', 'C11.generators_proper',
+    'C11.invariance_group', 'C11.hexagonal_inputs_agree', 'C11.rhombohedral_inputs_agree', 'C11.iso_range',
+    'C11.iso_pair_C11_C12', 'C11.iso_pair_C11_C44', 'C11.iso_pair_C11_K', 'C11.iso_pair_C12_C44',
+    'C11.iso_pair_C12_K', 'C11.iso_pair_C44_K', 'C11.iso_pair_C11_nu', 'C11.iso_pair_C44_nu',
+    'C11.iso_pair_E_nu', 'C11.iso_pair_nu_K', 'C11.iso_pair_C44_E', 'C11.iso_pair_E_K', 'C11.iso_pair_C12_nu',
+    'C11.iso_pair_C11_E', 'C11.iso_pair_C12_E', 'C11.iso_alias', 'C11.normalized_idem_triclinic',
+    'C11.normalized_idem_cubic', 'C11.normalized_idem_hexagonal', 'C11.normalized_idem_tetragonal',
+    'C11.normalized_idem_rhombohedral', 'C11.normalized_idem_orthorhombic', 'C11.normalized_idem_isotropic',
+    'C11.is_normal_of_normalized',
 ]
 PARTIAL = {
     'transform_with_cleanups': 'transform_id/comp/inv, energy and moduli invariance and system_invariant_* are proved for '
@@ -1458,6 +1459,17 @@ def correspond(ctx):
                 r2, e2 = _call(lambda: ec.transform(R).transform(R2).Cij)
                 B.add('transform:second', 'transform ' + out[3:] + ' ' + cm.frs(R2) + ' ' + cm.frs(n2), r2, e2,
                       _Cmp(1e-9, thresh=3e-8), {**info, 'axes2': R2.tolist()})
+        if it % 9 == 0:    # entries around the clean-up thresholds under an exact (signed-permutation) rotation
+            Ct = C.copy()
+            mxv = Ct.max()
+            a_, b_ = rng.sample(range(6), 2)
+            Ct[a_, b_] = Ct[b_, a_] = rng.choice([0.4e-8, 0.9e-8, 1.2e-8, 3e-8, 0.5e-9, 2e-9, -0.9e-8, -2e-8]) * mxv
+            Rp = sp[rng.randrange(len(sp))]
+            ect, et = _call(lambda: EC(Cij=Ct.copy()))
+            if et is None:
+                r, e = _call(lambda: ect.transform(Rp).Cij)
+                B.add('transform:threshold', 'transform ' + cm.frs(Ct) + ' ' + cm.frs(Rp) + ' 1 1 1', r, e, _exact,
+                      {'Cij': Ct.tolist(), 'axes': Rp.tolist()})
         if it % 10 == 0:   # explicit tol
             tol = rng.choice([1e-3, 0.25, 1e-12])
             r, e = _call(lambda: ec.transform(R, tol=tol).Cij)
